@@ -1092,8 +1092,11 @@ class FortranFile:
                     next_line = self.get_line(line_ind, pp_content)
                     line_ind += 1
                     cont_match = FRegex.FIXED_CONT.match(next_line)
-                    while (cont_match is not None) and (line_ind < self.nLines):
+                    while cont_match is not None:
                         post_lines.append(" " * 6 + next_line[6:])
+                        # The last line of the file may itself be a continuation
+                        if line_ind >= self.nLines:
+                            break
                         next_line = self.get_line(line_ind, pp_content)
                         line_ind += 1
                         cont_match = FRegex.FIXED_CONT.match(next_line)
